@@ -135,3 +135,46 @@ def run_graphs(fn, c, workers=None):
             viols += v
     _GCTX = None
     return total, viols
+
+
+# ---------------------------------------------------------------------------------------------
+# generic sharded enumeration of an indexed input space (C14, C18, C20)
+
+_ICTX = None
+
+
+def _iwork(args):
+    wid, nw = args
+    fn, n, data = _ICTX
+    cnt = collections.Counter()
+    viols = []
+    signal.signal(signal.SIGALRM, _alarm)
+    for i in range(wid, n, nw):
+        signal.setitimer(signal.ITIMER_REAL, 120)
+        try:
+            v, k = fn(i, data)
+        except TimeoutError:
+            v, k = [{'property': '?', 'sub': 'timeout', 'sig': {'kind': 'timeout'}, 'case': {'index': i}, 'detail': {}}], {}
+        finally:
+            signal.setitimer(signal.ITIMER_REAL, 0)
+        cnt.update(k)
+        cnt['inputs'] += 1
+        if len(viols) < 60:
+            viols += [x.to_json() if hasattr(x, 'to_json') else x for x in v]
+    return cnt, viols
+
+
+def run_indexed(fn, n, data=None, workers=None):
+    """fn(i, data) -> (violations, counters) for every i in range(n), sharded; deterministic merge"""
+    global _ICTX
+    workers = workers or common.WORKERS
+    _ICTX = (fn, n, data)
+    ctx = mp.get_context('fork')
+    total = collections.Counter()
+    viols = []
+    with ctx.Pool(workers) as pool:
+        for cnt, v in pool.imap(_iwork, [(i, workers) for i in range(workers)]):
+            total.update(cnt)
+            viols += v
+    _ICTX = None
+    return total, viols
